@@ -621,6 +621,10 @@ fn finding_for_tags(tags: &[String], why: &str) -> Option<&'static str> {
         if has("numeq") {
             return Some("F1");
         }
+        // a wrongly folded `..` decides a comparison, hence a branch, hence what is declared pure
+        if has("numfmt") {
+            return Some("F3");
+        }
         return None;
     }
     if has("numeq") {
@@ -774,6 +778,114 @@ fn check_case(model: &mut Model, ctx: &Ctx, r: &mut Report, wire: &str, source: 
     }
 }
 
+/// End to end through the real `compute_expression` rule: the program `<prelude> return <e>` before and
+/// after the rule must behave the same on the reference semantics when the original run is error-free.
+/// Differences outside H8 are the listed findings; a different NUMBER of returned values is finding F5
+/// (C01: `true and ...` folded to `...`), attributed, not raised here.
+fn end_to_end(model: &mut Model, ctx: &Ctx, r: &mut Report, wire: &str, rule: &dyn darklua_core::rules::Rule) {
+    let (env_name, env_block) = &ctx.envs[1];
+    let program = env_block.replace(HOLE, wire);
+    let block0 = match astsexp::sexp_to_block(&program) {
+        Ok(b) => b,
+        Err(_) => return,
+    };
+    let mut block1 = block0.clone();
+    let resources = darklua_core::Resources::from_memory();
+    let applied = std::panic::catch_unwind(std::panic::AssertUnwindSafe(|| {
+        let context = darklua_core::rules::ContextBuilder::new("src/test.lua", &resources, "").build();
+        rule.process(&mut block1, &context)
+    }));
+    match applied {
+        Ok(Ok(())) => {}
+        Ok(Err(_)) => return,
+        Err(_) => {
+            r.count("e2e_rule_panics", 1);
+            return;
+        }
+    }
+    let text1 = astsexp::block_to_sexp(&block1);
+    if text1 == astsexp::block_to_sexp(&block0) {
+        r.hist("e2e", "unchanged");
+        return;
+    }
+    let o0 = model.ask(&format!("sem.run 12 {} {}", extern_list(), astsexp::block_to_sexp(&block0)));
+    if !o0.starts_with("(ok ") {
+        r.hist("e2e", "original-not-error-free");
+        return;
+    }
+    let o1 = model.ask(&format!("sem.run 12 {} {}", extern_list(), text1));
+    let canon = |o: &str| -> String {
+        // all NaNs are one value
+        let mut out = String::new();
+        for tok in o.split_inclusive(|c: char| c == ' ' || c == '(' || c == ')') {
+            let (body, sep) = tok.split_at(tok.len() - tok.chars().last().map(|c| if c == ' ' || c == '(' || c == ')' { c.len_utf8() } else { 0 }).unwrap_or(0));
+            if body.len() == 17 && body.starts_with('f') {
+                out.push_str(&canon_num_atom(body));
+            } else {
+                out.push_str(body);
+            }
+            out.push_str(sep);
+        }
+        out
+    };
+    if canon(&o0) == canon(&o1) {
+        r.hist("e2e", "folded-same-behaviour");
+        return;
+    }
+    let count = |o: &str| parse_outcome_values(o);
+    if count(&o0) != count(&o1) {
+        r.hist("e2e", "value-count-differs(F5,C01)");
+        if r.counters.get("e2e_f5_samples").copied().unwrap_or(0) < 2 {
+            r.count("e2e_f5_samples", 1);
+            r.notes.push(format!("F5 (C01) seen end-to-end: return {} -> {} / {}", wire, o0, o1));
+        }
+        return;
+    }
+    let h = model.ask(&format!("c08.h {}", wire));
+    if !h.starts_with("(true") {
+        r.hist("e2e", "differs-outside-H8(F1-F4)");
+        return;
+    }
+    if has_f5_shape(wire) {
+        // `a and f()` / `a or ...` folded to the multi-valued right operand in a multi-value position
+        // (last table entry, last argument): C01's finding F5 again
+        r.hist("e2e", "differs-with-F5-shape(C01)");
+        return;
+    }
+    r.violation(Violation {
+        kind: "oracle".into(),
+        check: "e2e:compute_expression".into(),
+        what: format!("`return <e>` behaves differently after the real compute_expression rule (environment {})", env_name),
+        input: json!({"expr": wire, "original_outcome": o0, "transformed_outcome": o1, "transformed": text1}),
+        failing_input_found: true,
+    });
+}
+
+/// an `and`/`or` whose right operand can yield several values (finding F5 of C01 may apply)
+fn has_f5_shape(wire: &str) -> bool {
+    fn walk(s: &Sexp) -> bool {
+        if let Some(items) = s.list() {
+            if items.len() == 4 && items[0].atom() == Some("bin") && matches!(items[1].atom(), Some("and" | "or")) {
+                let right = &items[3];
+                if right.atom() == Some("vararg") || right.head() == Some("call") {
+                    return true;
+                }
+            }
+            items.iter().any(walk)
+        } else {
+            false
+        }
+    }
+    Sexp::parse(wire).map(|s| walk(&s)).unwrap_or(false)
+}
+
+fn parse_outcome_values(o: &str) -> Option<usize> {
+    match parse_outcome(o) {
+        Outcome::Ok { values, .. } => Some(values.len()),
+        _ => None,
+    }
+}
+
 fn replay_known_findings(model: &mut Model, ctx: &Ctx, r: &mut Report) {
     for entry in report::known_findings("C08") {
         let id = entry["id"].as_str().unwrap_or("?").to_owned();
@@ -859,8 +971,8 @@ pub fn run(report: &mut Report, replay: Option<&str>) {
     let rd1 = reduced_depth1(&alpha);
     let d2_total = depth2_count(&rd1);
     let thorough = report.is_thorough();
-    let d2_take = if thorough { d2_total } else { 60_000 };
-    let random_total: usize = if thorough { 200_000 } else { 20_000 };
+    let d2_take = if thorough { d2_total } else { 120_000 };
+    let random_total: usize = if thorough { 2_000_000 } else { 100_000 };
     let threads = 14;
     let seed = report.seed;
     report.exhaustive.insert("depth<=1 over the full alphabets".into(), true);
@@ -876,9 +988,13 @@ pub fn run(report: &mut Report, replay: Option<&str>) {
     let ctx = &ctx;
     report.parallel(threads, |tid, r| {
         let mut model = Model::spawn();
+        let rule = exec::rule_from_json("'compute_expression'").expect("compute_expression rule");
         for (i, w) in d1.iter().enumerate() {
             if i % threads == tid {
                 check_case(&mut model, ctx, r, w, "depth1", true, i);
+                if let Ok(e) = astsexp::sexp_to_expr(w) {
+                    end_to_end(&mut model, ctx, r, &astsexp::expr_to_sexp(&e), rule.as_ref());
+                }
             }
         }
         // depth 2: all (thorough) or a seeded slice (quick): a stride walk from a seeded offset
@@ -904,6 +1020,11 @@ pub fn run(report: &mut Report, replay: Option<&str>) {
                 continue;
             }
             check_case(&mut model, ctx, r, &w, "random", false, j);
+            if j % 4 == 0 {
+                if let Ok(e) = astsexp::sexp_to_expr(&w) {
+                    end_to_end(&mut model, ctx, r, &astsexp::expr_to_sexp(&e), rule.as_ref());
+                }
+            }
         }
     });
 }
